@@ -8,11 +8,19 @@ Definition Rel (s : st20) (k : option span) : Prop :=
   | None => active (rs (wc s)) = false /\ sf s = no_files
   | Some sp =>
       active (rs (wc s)) = true /\
-      f_state (sf s) = Some (sSTART :: sp_labels sp) /\
+      f_state (sf s) = Some ((0, sSTART) :: sp_labels sp) /\
       f_ext (sf s) = opt_nonempty (sp_ext sp) /\
       f_drop (sf s) = opt_nonempty (sp_drop sp) /\
-      forallb single_line (sp_labels sp) = true
+      forallb (fun e => single_line (snd e)) (sp_labels sp) = true
   end.
+
+Lemma sline_eqb_eq x y : sline_eqb x y = true <-> x = y.
+Proof.
+  destruct x as [a l], y as [b m]; unfold sline_eqb; cbn [fst snd].
+  rewrite andb_true_iff, Z.eqb_eq, zlist_eqb_eq. split.
+  - intros [-> ->]; reflexivity.
+  - intro E; inversion E; auto.
+Qed.
 
 Lemma files_eqb_refl f : files_eqb f f = true.
 Proof.
@@ -24,8 +32,8 @@ Proof.
     intros [a1 a2] [b1 b2]; unfold zz_eqb; cbn. rewrite andb_true_iff, !Z.eqb_eq. split.
     - intros [-> ->]; reflexivity.
     - intro E; inversion E; auto. }
-  assert (C : oeqb (list_eqb zlist_eqb) s s = true).
-  { destruct s; cbn; auto. apply (list_eqb_eq zlist_eqb); auto. intros; apply zlist_eqb_eq. }
+  assert (C : oeqb (list_eqb sline_eqb) s s = true).
+  { destruct s; cbn; auto. apply (list_eqb_eq sline_eqb); auto. apply sline_eqb_eq. }
   rewrite A, B, C. now destruct b.
 Qed.
 
@@ -75,7 +83,7 @@ Lemma step20_check proj s k o :
   exists k', check_step k o b = Some k' /\ Inv proj (wc s') /\ Rel s' k'.
 Proof.
   intros HI Hne HR. unfold step20, step20_gen.
-  destruct o as [[r|l|ch n]|ext drops first].
+  destruct o as [[r|l|ch n]|ext drops first|off l].
   - (* write-control request *)
     destruct (wc_effect proj (wc s) r HI Hne) as (w' & q & Hs & HI' & Hcl & Hk).
     unfold step in Hs. rewrite Hs.
@@ -98,7 +106,7 @@ Proof.
            destruct HR as (R1 & R2 & R3 & R4 & R5).
            cbn [Rel wc sf set_state_label f_state f_ext f_drop add_label sp_labels sp_ext sp_drop].
            rewrite Hk, R2. repeat split; auto.
-           rewrite forallb_app, R5. cbn. now rewrite Hsl.
+           rewrite forallb_app. apply andb_true_iff; split; [exact R5 | cbn [forallb snd]; now rewrite Hsl].
         -- rewrite if_same. unfold check_step; rewrite Ek, Eu; cbn [is_none negb].
            eexists; (split; [reflexivity|]); (split; [exact HI'|]). eapply Rel_same; eauto.
     + (* STOP *)
@@ -107,12 +115,11 @@ Proof.
       unfold check_step. rewrite Ek.
       destruct k as [sp|].
       * destruct HR as (R1 & R2 & R3 & R4 & R5). rewrite R1.
-        assert (E : {| x_ext := f_ext (sf s); x_drop := f_drop (sf s);
-                       x_state := match f_state (sf s) with Some ls => Some (ls ++ [sSTOP]) | None => None end;
-                       x_fmt := match match f_state (sf s) with Some ls => Some (ls ++ [sSTOP]) | None => None end with
-                                | Some ls => forallb single_line ls | None => true end |} = expected sp).
-        { unfold expected. rewrite R2, R3, R4. cbn [app]. f_equal.
-          cbn [forallb]. rewrite forallb_app, R5. reflexivity. }
+        assert (E : fst (stop_files (sf s)) = expected sp).
+        { unfold stop_files, expected; cbn [fst]. rewrite R2, R3, R4. cbn [app]. f_equal.
+          cbn [forallb snd]. rewrite forallb_app.
+          apply andb_true_iff; split; [reflexivity | apply andb_true_iff; split; [exact R5 | reflexivity]]. }
+        unfold stop_files in E; cbn [fst] in E.
         rewrite E. cbn [oeqb]. rewrite files_eqb_refl. cbn [andb].
         eexists; (split; [reflexivity|]); (split; [exact HI'|]). cbn [Rel wc sf]. auto.
       * destruct HR as [R1 R2]. rewrite R1. cbn [is_none andb].
@@ -138,7 +145,7 @@ Proof.
       eexists; (split; [reflexivity|]); (split; [exact HI|]).
       destruct HR as (R1 & R2 & R3 & R4 & R5).
       cbn [Rel wc sf set_state_label f_state f_ext f_drop add_label sp_labels sp_ext sp_drop].
-      rewrite R2. repeat split; auto. rewrite forallb_app, R5. cbn. now rewrite Hsl.
+      rewrite R2. repeat split; auto. rewrite forallb_app. apply andb_true_iff; split; [exact R5 | cbn [forallb snd]; now rewrite Hsl].
     + rewrite if_same. unfold check_step; cbn [is_none negb].
       eexists; (split; [reflexivity|]); (split; [exact HI|]). eapply Rel_same; eauto.
   - (* publish *)
@@ -155,6 +162,16 @@ Proof.
       cbn [f_state f_ext f_drop add_block sp_ext sp_drop sp_labels]. repeat split; auto.
     + destruct HR as [R1 R2]. rewrite R1. cbn [Rel wc sf]. split; auto.
       rewrite R2. unfold handle_ext, handle_drop; cbn. now rewrite !andb_false_r.
+  - (* label with a supplied time stamp *)
+    destruct (active (rs (wc s)) && (negb true || single_line l)) eqn:Ea.
+    + apply andb_true_iff in Ea as [Ha Hsl]. cbn in Hsl.
+      unfold check_step.
+      destruct k as [sp|]; [|destruct HR; congruence].
+      eexists; (split; [reflexivity|]); (split; [exact HI|]).
+      destruct HR as (R1 & R2 & R3 & R4 & R5).
+      cbn [Rel wc sf set_state_label f_state f_ext f_drop add_label sp_labels sp_ext sp_drop].
+      rewrite R2. repeat split; auto. rewrite forallb_app. apply andb_true_iff; split; [exact R5 | cbn [forallb snd]; now rewrite Hsl].
+    + unfold check_step. eexists; (split; [reflexivity|]); (split; [exact HI|]). exact HR.
 Qed.
 
 Lemma step20_not_crash proj s k o :
@@ -162,7 +179,7 @@ Lemma step20_not_crash proj s k o :
 Proof.
   intros HI Hne HR E. pose proof (step20_check proj s k o HI Hne HR) as H.
   destruct (step20 s o) as [s' b]. cbn in E. subst b. destruct H as (k' & Hc & _).
-  destruct o as [[?|?|? ?]|? ? ?]; discriminate.
+  destruct o as [[?|?|? ?]|? ? ?|? ?]; discriminate.
 Qed.
 
 Lemma run20_check proj : forall ops s k,
@@ -233,7 +250,7 @@ Proof.
     - intro E; inversion E; auto. }
   assert (s = s').
   { destruct s, s'; cbn in C; try discriminate; auto. f_equal.
-    apply (list_eqb_eq zlist_eqb) in C; auto. intros; apply zlist_eqb_eq. }
+    apply (list_eqb_eq sline_eqb) in C; auto. apply sline_eqb_eq. }
   apply eqb_prop in D. subst. reflexivity.
 Qed.
 
@@ -258,9 +275,9 @@ Lemma example20 :
   c_proj cfg20 <> [] /\
   nth 6 (snd (run20 (init20 cfg20) example_hist)) OX =
     OR true (Some {| x_ext := Some [5; 6; 7]; x_drop := Some [(30, 4)];
-                     x_state := Some [sSTART; [65]; sSTOP]; x_fmt := true |}) true /\
+                     x_state := Some [(0, sSTART); (0, [65]); (0, sSTOP)]; x_fmt := true |}) true /\
   nth 10 (snd (run20 (init20 cfg20) example_hist)) OX =
-    OR true (Some {| x_ext := Some [13]; x_drop := None; x_state := Some [sSTART; sSTOP]; x_fmt := true |}) true.
+    OR true (Some {| x_ext := Some [13]; x_drop := None; x_state := Some [(0, sSTART); (0, sSTOP)]; x_fmt := true |}) true.
 Proof. vm_compute. repeat split; try reflexivity; discriminate. Qed.
 
 (* ---------- the declarative reading: at every accepted STOP of a history the files read back are exactly
@@ -269,7 +286,7 @@ Proof. vm_compute. repeat split; try reflexivity; discriminate. Qed.
 Lemma check_step_track k o b k' : check_step k o b = Some k' -> k' = track_step k o b.
 Proof.
   unfold check_step, track_step.
-  destruct o as [[r|l|ch n]|ext drops first], b as [ok files closed|err| |]; try discriminate.
+  destruct o as [[r|l|ch n]|ext drops first|off l], b as [ok files closed|err|tok| |]; try discriminate.
   - destruct (classify (rq_str r)).
     + destruct (is_none files); [|discriminate]. now intros [= <-].
     + destruct (negb (is_none files)); [discriminate|].
@@ -286,6 +303,7 @@ Proof.
     destruct ok; [|now intros [= <-]]. destruct k; [|discriminate]. now intros [= <-].
   - now intros [= <-].
   - destruct err; [discriminate|]. destruct k; now intros [= <-].
+  - destruct tok; [|now intros [= <-]]. destruct k; [|discriminate]. now intros [= <-].
 Qed.
 
 Lemma check_from_split : forall h1 k o b h2,
